@@ -620,6 +620,38 @@ pub fn run(tier: &str) -> i32 {
                 }
             }
         }
+        // the same operand on both sides (a peephole for `x op x` must still be IEEE / wrapping)
+        for op in FLOAT_OPS {
+            let f = define(&interp, &format!("f := (a: float) -> any {{ return a {op} a }}"));
+            let g = define(&interp, &format!("f := (c: mut float) -> any {{ return *c {op} *c }}"));
+            for &a in &fgrid {
+                let expect = ref_float(op, a, a);
+                let cell = Variable::Mut(Arc::new(simplesl::variable::Mut { var_type: simplesl::variable::Type::Float, variable: Variable::Float(a).into() }));
+                for (form, got) in [("same-parameter-twice", call(&f, vec![a.into()])), ("same-cell-twice", call(&g, vec![cell]))] {
+                    acc.evals += 1;
+                    if got != expect {
+                        acc.violations.push(Violation {
+                            sig: format!("C08|float {op}|form={form}|a={a:?}"),
+                            detail: json!({"kind": "scalar", "op": op, "a": format!("{a:?}"), "b": "the same operand", "form": form, "expected": format!("{expect:?}"), "observed": format!("{got:?}")}),
+                        });
+                    }
+                }
+            }
+        }
+        for op in INT_OPS {
+            let f = define(&interp, &format!("f := (a: int) -> any {{ return a {op} a }}"));
+            for &a in &quick_grid {
+                let expect = ref_int(op, a, a);
+                let got = call(&f, vec![a.into()]);
+                acc.evals += 1;
+                if got != expect {
+                    acc.violations.push(Violation {
+                        sig: format!("C08|int {op}|form=same-parameter-twice|a={}", class_of(a)),
+                        detail: json!({"kind": "scalar", "op": op, "a": a, "b": "the same operand", "form": "same-parameter-twice", "expected": format!("{expect:?}"), "observed": format!("{got:?}")}),
+                    });
+                }
+            }
+        }
         for &a in &fgrid {
             let e = Ref::Val(crate::val::float_canon(-a));
             let mut forms = vec![("parameter", call(&fneg, vec![a.into()]))];
